@@ -75,6 +75,10 @@ type Case struct {
 	SubRevs []string `json:"submodule_revisions,omitempty"` // "" = a text without revision
 	Nested  bool     `json:"nested,omitempty"`              // sub includes sub2, which the modules include too
 	Deep    bool     `json:"deep,omitempty"`                // with Nested: sub2 includes sub3, which the modules include too
+	// mixed: revisions of lib partly loaded, partly waiting in a search-path directory, importers of both kinds
+	Loaded   []string   `json:"loaded_revisions,omitempty"`  // "" = a text without revision statement
+	OnDisk   []string   `json:"revisions_on_disk,omitempty"` // lib@DATE.yang files
+	MixedImp []Importer `json:"mixed_importers,omitempty"`
 	// split
 	Whole *ymodel.Set `json:"whole,omitempty"`
 	Split *ymodel.Set `json:"split,omitempty"`
@@ -902,6 +906,8 @@ func check(c Case) (o ev.Outcome) {
 		ev.Guard(&o, "revisions", func() { checkRevisions(c, &o) })
 	case "files":
 		ev.Guard(&o, "files", func() { checkFiles(c, &o) })
+	case "mixed":
+		ev.Guard(&o, "mixed", func() { checkMixed(c, &o) })
 	case "split":
 		checkSplit(c, &o)
 		if c.Split != nil {
@@ -989,14 +995,38 @@ func genRevisions(t *rapid.T) Case {
 }
 
 func genFiles(t *rapid.T) Case {
-	c := Case{Kind: "files", Dirs: rapid.IntRange(1, 3).Draw(t, "dirs"), Want: "name"}
+	// module names may hold every character of a YANG identifier: letters, digits, '_', '-' and '.'
+	w := rapid.SampledFrom([]string{"name", "name", "na.me", "n.a-m_e", "name.v1", "na-me"}).Draw(t, "wanted-name")
+	c := Case{Kind: "files", Dirs: rapid.IntRange(1, 3).Draw(t, "dirs"), Want: w}
 	c.ViaImp = rapid.Bool().Draw(t, "via-import")
-	pool := []string{"name.yang", "name@2020-01-01.yang", "name@2021-06-30.yang", "name@2019-12-31.yang",
-		"nameX@2022-01-01.yang", "Xname@2022-01-01.yang", "name@2020-1-01.yang", "name@2023-01-01.yang.bak", "name@2023-01-01.YANG", "name-ext@2022-05-05.yang", "name@2022-01-01x.yang", "name.yang.orig", "nam.yang", "name2.yang", "name@.yang", "name@20220101.yang"}
+	pool := []string{w + ".yang", w + "@2020-01-01.yang", w + "@2021-06-30.yang", w + "@2019-12-31.yang",
+		w + "X@2022-01-01.yang", "X" + w + "@2022-01-01.yang", w + "@2020-1-01.yang", w + "@2023-01-01.yang.bak", w + "@2023-01-01.YANG", w + "-ext@2022-05-05.yang", w + "@2022-01-01x.yang", w + ".yang.orig", w[:len(w)-1] + ".yang", w + "2.yang", w + "@.yang", w + "@20220101.yang"}
+	if strings.ContainsAny(w, ".-_") {
+		// files of modules whose names differ from the wanted one in a punctuation character only; they carry the
+		// latest dates, so they would win if they were taken for candidates
+		for _, r := range []string{"X", "_", "-", ".", ""} {
+			alt := strings.NewReplacer(".", r, "-", r, "_", r).Replace(w)
+			if alt != w {
+				pool = append(pool, alt+"@2024-02-02.yang", alt+".yang")
+			}
+		}
+		first := strings.IndexAny(w, ".-_")
+		for _, r := range []string{"X", "_", "-", "."} {
+			alt := w[:first] + r + w[first+1:]
+			if alt != w {
+				pool = append(pool, alt+"@2024-03-03.yang")
+			}
+		}
+	}
 	n := rapid.IntRange(0, 7).Draw(t, "files")
 	seen := map[string]bool{}
 	for i := 0; i < n; i++ {
-		f := FileSpec{Dir: rapid.IntRange(0, c.Dirs-1).Draw(t, "dir"), Name: rapid.SampledFrom(pool).Draw(t, "file")}
+		f := FileSpec{Dir: rapid.IntRange(0, c.Dirs-1).Draw(t, "dir")}
+		if rapid.IntRange(0, 2).Draw(t, "true-candidate") == 0 {
+			f.Name = rapid.SampledFrom(pool[:4]).Draw(t, "file")
+		} else {
+			f.Name = rapid.SampledFrom(pool).Draw(t, "file")
+		}
 		if rapid.IntRange(0, 11).Draw(t, "as-directory") == 0 {
 			f.Dir2 = true
 		}
@@ -1008,12 +1038,178 @@ func genFiles(t *rapid.T) Case {
 	}
 	if c.ViaImp && rapid.IntRange(0, 2).Draw(t, "dated-import") == 0 {
 		for _, f := range c.Files {
-			if !f.Dir2 && strings.HasPrefix(f.Name, "name@") && strings.HasSuffix(f.Name, ".yang") && dateRE(strings.TrimSuffix(strings.TrimPrefix(f.Name, "name@"), ".yang")) {
-				c.WantDate = strings.TrimSuffix(strings.TrimPrefix(f.Name, "name@"), ".yang")
+			if !f.Dir2 && strings.HasPrefix(f.Name, w+"@") && strings.HasSuffix(f.Name, ".yang") && dateRE(strings.TrimSuffix(strings.TrimPrefix(f.Name, w+"@"), ".yang")) {
+				c.WantDate = strings.TrimSuffix(strings.TrimPrefix(f.Name, w+"@"), ".yang")
 			}
 		}
 	}
 	return c
+}
+
+// ---- mixed: some revisions loaded, others waiting on the search path ----
+
+func libText(date string) string {
+	rev, tag := "", "norev"
+	if date != "" {
+		rev, tag = " revision "+date+";\n", date
+	}
+	return fmt.Sprintf("module lib {\n namespace \"urn:lib\";\n prefix l;\n%s grouping g { leaf from-%s { type string; } }\n typedef t { type string; units \"%s\"; }\n identity base-%s;\n}\n", rev, tag, tag, tag)
+}
+
+func genMixed(t *rapid.T) Case {
+	dates := []string{"2018-01-01", "2019-01-01", "2020-01-01", "2021-01-01"}
+	c := Case{Kind: "mixed"}
+	for _, d := range dates {
+		switch rapid.IntRange(0, 3).Draw(t, "where") {
+		case 0:
+			c.Loaded = append(c.Loaded, d)
+		case 1:
+			c.OnDisk = append(c.OnDisk, d)
+		}
+	}
+	if rapid.IntRange(0, 4).Draw(t, "undated-text-loaded") == 0 {
+		c.Loaded = append(c.Loaded, "")
+	}
+	n := rapid.IntRange(1, 3).Draw(t, "importers")
+	names := []string{"alpha", "middle", "omega"}
+	for i := 0; i < n; i++ {
+		im := Importer{Name: names[i], Of: "lib"}
+		if rapid.Bool().Draw(t, "dated") {
+			im.Date = rapid.SampledFrom(dates).Draw(t, "import-date")
+		}
+		c.MixedImp = append(c.MixedImp, im)
+	}
+	k := len(c.Loaded) + len(c.MixedImp)
+	for i := 0; i < 3; i++ {
+		c.Perm = append(c.Perm, schema.Order(t, k))
+	}
+	return c
+}
+
+func checkMixed(c Case, o *ev.Outcome) {
+	root, err := os.MkdirTemp("", "verif-c13m-")
+	if err != nil {
+		panic(err)
+	}
+	defer os.RemoveAll(root)
+	for _, d := range c.OnDisk {
+		os.WriteFile(filepath.Join(root, "lib@"+d+".yang"), []byte(libText(d)), 0o644)
+	}
+	type src struct{ name, text string }
+	var srcs []src
+	for _, d := range c.Loaded {
+		n := "lib.yang"
+		if d != "" {
+			n = "lib@" + d + ".yang"
+		}
+		srcs = append(srcs, src{n, libText(d)})
+	}
+	for _, im := range c.MixedImp {
+		d := ""
+		if im.Date != "" {
+			d = " revision-date " + im.Date + ";"
+		}
+		srcs = append(srcs, src{im.Name + ".yang", fmt.Sprintf("module %s {\n namespace \"urn:%s\";\n prefix x;\n import lib { prefix l;%s }\n container c { uses l:g; leaf viat { type l:t; } }\n}\n", im.Name, im.Name, d)})
+	}
+	o.NonTrivial = len(c.Loaded)+len(c.OnDisk) >= 2 && len(c.MixedImp) >= 2
+	o.Class(fmt.Sprintf("mixed/loaded-%d-on-disk-%d", len(c.Loaded), len(c.OnDisk)))
+	tagOf := func(m *yang.Module) string {
+		if m == nil {
+			return "<nil>"
+		}
+		if i := strings.IndexByte(m.FullName(), '@'); i >= 0 {
+			return m.FullName()[i+1:]
+		}
+		return "norev"
+	}
+	for pi, perm := range c.Perm {
+		if len(perm) != len(srcs) {
+			continue
+		}
+		ms := yang.NewModules()
+		ms.AddPath(root)
+		for _, i := range perm {
+			if err := ms.Parse(srcs[i].text, srcs[i].name); err != nil {
+				o.Violate("loads", "C13/mixed/load-rejected", "order %v: %s rejected: %v", perm, srcs[i].name, err)
+				return
+			}
+		}
+		if errs := ms.Process(); len(errs) > 0 {
+			if len(c.Loaded)+len(c.OnDisk) == 0 {
+				continue // nothing to import: an error is right
+			}
+			o.Violate("binds", "C13/mixed/process-fails", "order %v: a revision of lib is loaded or on the search path, yet Process fails: %v", perm, errs)
+			return
+		}
+		if len(c.Loaded)+len(c.OnDisk) == 0 {
+			o.Violate("binds", "C13/mixed/missing-import-unreported", "order %v: no lib anywhere, yet Process reports nothing", perm)
+			return
+		}
+		// the latest revision held now
+		var held []string
+		for k := range ms.Modules {
+			if k == "lib" || strings.HasPrefix(k, "lib@") {
+				held = append(held, tagOf(ms.Modules[k]))
+			}
+		}
+		sort.Strings(held)
+		newest := ""
+		for _, h := range held {
+			if h != "norev" && h > newest {
+				newest = h
+			}
+		}
+		if newest == "" {
+			newest = "norev"
+		}
+		if got := tagOf(ms.Modules["lib"]); got != newest {
+			o.Violate("bare-name-latest", "C13/mixed/bare-name-not-latest", "order %v (#%d): the set holds lib revisions %v, the bare name denotes %s", perm, pi, held, got)
+			return
+		}
+		for _, im := range c.MixedImp {
+			m := ms.Modules[im.Name]
+			if m == nil || len(m.Import) != 1 {
+				o.Violate("binds", "C13/mixed/importer-missing", "order %v: importer %s not held", perm, im.Name)
+				return
+			}
+			got := tagOf(m.Import[0].Module)
+			want, how := newest, "undated"
+			if im.Date != "" {
+				how = "dated"
+				if ms.Modules["lib@"+im.Date] != nil {
+					want = im.Date
+				} else {
+					want = "" // the named revision is not held: which one stands in is not claimed
+				}
+			}
+			if want != "" && got != want {
+				o.Violate("import-binding", "C13/mixed/import-binding/"+how, "order %v (#%d): the set holds lib revisions %v after Process; the %s import of %s (date %q) denotes %s, expected %s", perm, pi, held, how, im.Name, im.Date, got, want)
+				return
+			}
+			// one importer sees one revision: the grouping it uses and the typedef it names come from the module its import denotes
+			e := yang.ToEntry(m)
+			cc := e.Dir["c"]
+			if cc == nil {
+				o.Violate("import-binding", "C13/mixed/tree", "order %v: %s has no container c", perm, im.Name)
+				return
+			}
+			var leaves []string
+			for k := range cc.Dir {
+				if strings.HasPrefix(k, "from-") {
+					leaves = append(leaves, strings.TrimPrefix(k, "from-"))
+				}
+			}
+			sort.Strings(leaves)
+			units := "?"
+			if v := cc.Dir["viat"]; v != nil && v.Type != nil {
+				units = v.Type.Units
+			}
+			if len(leaves) != 1 || leaves[0] != got || units != got {
+				o.Violate("import-binding", "C13/mixed/importer-sees-two-revisions/"+how, "order %v (#%d): the import of %s denotes lib %s, but its uses brought %v and its type has units %q (held: %v)", perm, pi, im.Name, got, leaves, units, held)
+				return
+			}
+		}
+	}
 }
 
 // refsOf collects the top-level typedefs, groupings and identities of m that the given items refer to.
@@ -1163,6 +1359,9 @@ func genSplit(t *rapid.T) Case {
 }
 
 func gen(t *rapid.T) Case {
+	if rapid.IntRange(0, 9).Draw(t, "mixed-generator") == 0 {
+		return genMixed(t)
+	}
 	switch rapid.IntRange(0, 3).Draw(t, "generator") {
 	case 3:
 		return genRevSub(t)
